@@ -3939,6 +3939,25 @@ impl Interpreter {
             hint
         };
 
+        // obj[Symbol.toPrimitive](hint) takes precedence over valueOf / toString
+        let to_primitive_key = PropertyKey::Symbol(Box::new(JsSymbol::new(
+            self.well_known_symbols.to_primitive,
+            Some(self.intern("Symbol.toPrimitive")),
+        )));
+        let exotic_to_primitive = obj.borrow().get_property(&to_primitive_key);
+        if let Some(method @ JsValue::Object(_)) = exotic_to_primitive
+            && method.is_callable()
+        {
+            let hint_arg = JsValue::String(self.intern(hint));
+            let result = self.call_function(method, value.clone(), &[hint_arg])?;
+            if matches!(result.value, JsValue::Object(_)) {
+                return Err(JsError::type_error(
+                    "Cannot convert object to primitive value",
+                ));
+            }
+            return Ok(result.value);
+        }
+
         // Determine method order based on hint
         let (first_method, second_method) = if effective_hint == "string" {
             ("toString", "valueOf")
